@@ -151,16 +151,38 @@ Lemma frames_S f s :
   firstn (Z.to_nat (8 + size)) s :: frames f (skipn (Z.to_nat (8 + size)) s).
 Proof. reflexivity. Qed.
 
+Lemma receive_request_cases fuel cs :
+  Forall nonempty cs -> (length (concat cs) < fuel)%nat ->
+  let s := concat cs in
+  let size := be_dec (firstn 4 (skipn 4 s)) in
+  (zlen s < 8 /\ exists a, receive_request fuel cs = NoFrame EndClosed a) \/
+  (8 <= zlen s /\ size < 0 /\ exists a, receive_request fuel cs = NoFrame EndValueError a) \/
+  (8 <= zlen s /\ 0 <= size /\ zlen s - 8 < size /\ exists a, receive_request fuel cs = NoFrame EndClosed a) \/
+  (8 <= zlen s /\ 0 <= size <= zlen s - 8 /\
+   exists cs2 a, receive_request fuel cs = Frame (firstn (Z.to_nat (8 + size)) s) cs2 a
+                 /\ concat cs2 = skipn (Z.to_nat (8 + size)) s /\ Forall nonempty cs2).
+Proof.
+  intros Hne Hfuel s size. pose proof (receive_request_spec fuel cs Hne Hfuel) as V.
+  fold s in V. remember (receive_request fuel cs) as r eqn:Hr.
+  destruct V as [a Hs | a Hl Hneg | a Hl Hnn Hinc | cs2 a Hl Hfit Hc2 Hne2].
+  - left. split; [assumption | eexists; reflexivity].
+  - right; left. repeat split; try assumption. eexists; reflexivity.
+  - right; right; left. repeat split; try assumption. eexists; reflexivity.
+  - right; right; right. repeat split; try apply Hfit; try assumption.
+    exists cs2, a. repeat split; assumption.
+Qed.
+
 Lemma frames_of_spec : forall fuel fuel0 cs,
   Forall nonempty cs -> (length (concat cs) < fuel0)%nat ->
   fst (fst (frames_of fuel0 fuel cs)) = frames fuel (concat cs).
 Proof.
   induction fuel as [|f IH]; intros fuel0 cs Hne Hfuel; [reflexivity|].
   rewrite frames_of_S, frames_S.
-  pose proof (receive_request_spec fuel0 cs Hne Hfuel) as V.
-  remember (concat cs) as s eqn:Hs in *. cbv zeta.
+  pose proof (receive_request_cases fuel0 cs Hne Hfuel) as V. cbv zeta in *.
+  remember (concat cs) as s eqn:Hs in *.
   remember (be_dec (firstn 4 (skipn 4 s))) as size eqn:Hsize in *.
-  inversion V as [a Hshort Heq | a Hl Hneg Heq | a Hl Hnn Hinc Heq | cs2 a Hl Hfit Hc2 Hne2 Heq].
+  destruct V as [(Hshort & a & Hr) | [(Hl & Hneg & a & Hr) | [(Hl & Hnn & Hinc & a & Hr) | (Hl & Hfit & cs2 & a & Hr & Hc2 & Hne2)]]];
+    rewrite Hr.
   - destruct (zlen s <? 8) eqn:E; [reflexivity | lia].
   - destruct (zlen s <? 8) eqn:E; [lia|]. destruct (size <? 0) eqn:E2; [reflexivity | lia].
   - destruct (zlen s <? 8) eqn:E; [lia|]. destruct (size <? 0) eqn:E2; [lia|].
